@@ -16,7 +16,8 @@ BLANK = -999999
 DIMOBJ = {
     # item order deliberately NOT sorted: pandas sorts labels in pivots / MultiIndex levels
     "a": Dimension(name="dim_a", letter="a", items=["a3", "a1", "a2"], dtype=str),
-    "b": Dimension(name="dim_b", letter="b", items=[2010, 2000], dtype=int),
+    # (years at both ends of the range that an unnamed integer index is recognised as years by)
+    "b": Dimension(name="dim_b", letter="b", items=[2300, 1700], dtype=int),
     "c": Dimension(name="dim_c", letter="c", items=[2, 1]),
     "d": Dimension(name="dim_d", letter="d", items=["d1"], dtype=str),
 }
@@ -24,8 +25,10 @@ DIMOBJ = {
 # replayed a second time in this concretisation, in the same process (anything the library remembers about a
 # dimension from an earlier import / export must not leak into a later one)
 DIMSETS = [DIMOBJ, {
-    "a": Dimension(name="dim_a", letter="a", items=["a1", "a2", "a3"], dtype=str),
-    "b": Dimension(name="dim_b", letter="b", items=[2000, 2010], dtype=int),
+    # (string items that are all digits - a CSV reader parses them as integers; years at both ends of the range that an
+    #  unnamed integer index is recognised as years by)
+    "a": Dimension(name="dim_a", letter="a", items=["1", "2", "3"], dtype=str),
+    "b": Dimension(name="dim_b", letter="b", items=[1700, 2300], dtype=int),
     "c": Dimension(name="dim_c", letter="c", items=[1, 2]),
     "d": Dimension(name="dim_d", letter="d", items=["d1"], dtype=str),
 }]
@@ -86,8 +89,14 @@ def build_frame(vec):
     if st["colperm"] == "rev":
         df = df[list(df.columns)[::-1]]
     place = st["place"]
+    unnamed_index = False
     if place == "index" and dimcols:
         df = df.set_index(dimcols)
+        if st["hdr"] == "anon" and len(dimcols) == 1 and [l for l in rd if l not in dropped][0] in ("a", "b", "d"):
+            # a single anonymous index level carries no name at all (strings, or years within the range in which the library
+            # takes an unnamed integer index for data; other unnamed integer indexes are row numbers by definition)
+            df.index.name = None
+            unnamed_index = True
     elif place == "mixed" and len(dimcols) >= 2:
         df = df.set_index(dimcols[: len(dimcols) // 2])
     elif st["repidx"] and n >= 2:
@@ -95,7 +104,7 @@ def build_frame(vec):
         df = pd.concat([df.iloc[:h].reset_index(drop=True), df.iloc[h:].reset_index(drop=True)])   # row labels repeat
     if st["csv"]:
         buf = io.StringIO()
-        has_index = any(n is not None for n in df.index.names)
+        has_index = any(n is not None for n in df.index.names) or unnamed_index
         df.to_csv(buf, index=has_index)
         buf.seek(0)
         df = pd.read_csv(buf)
@@ -387,3 +396,74 @@ def run_large_faulty(case):
     except Exception as ex:
         problems.append(tag + f"raised {type(ex).__name__}: {str(ex)[:150]}")
     return problems[:3]
+
+
+def run_special_layouts(case):
+    """Two layouts outside the ten styles of the bounded model.
+    (1) HEADER-LESS text files (no header line at all: a plain pd.read_csv takes the first data line for the column names):
+        a valid file is imported as the array (C11); the same file with one line repeated - in particular the FIRST line,
+        which sits in the column names - has a duplicated label combination and is refused under every flag setting (C12).
+    (2) a table WITHOUT ANY ROW under the default flags: every label combination is missing, so it is refused and the target
+        array is left untouched (C12)."""
+    letters, dup_line = case
+    dims = DimensionSet(dim_list=[DIMOBJ[l] for l in letters])
+    shape = tuple(d.len for d in dims)
+    vals = (np.arange(1, int(np.prod(shape)) + 1, dtype=float) * 3 + 0.25).reshape(shape)
+    rows = []
+    for idx in np.ndindex(*shape):
+        rows.append([dims[k].items[i] for k, i in enumerate(idx)] + [vals[idx]])
+    problems = []
+    tag = f"[header-less file, dims {letters}, repeated line {dup_line}] "
+    lines = rows if dup_line is None else rows + [rows[dup_line][:-1] + [99.25]]
+    text = "\n".join(",".join(str(c) for c in r) for r in lines) + "\n"
+    for missing, extra in ((False, False), (True, False), (False, True), (True, True)):
+        for call in ("from_df", "set_values_from_df"):
+            df = pd.read_csv(io.StringIO(text))
+            target = FlodymArray(dims=dims, values=np.full(shape, -5.0))
+            try:
+                if call == "from_df":
+                    got = FlodymArray.from_df(dims=dims, df=df, allow_missing_values=missing, allow_extra_values=extra).values
+                else:
+                    target.set_values_from_df(df, allow_missing_values=missing, allow_extra_values=extra)
+                    got = target.values
+                raised = None
+            except Exception as e:
+                raised, got = e, None
+            t = tag + f"{call}(allow_missing={missing}, allow_extra={extra}): "
+            if dup_line is None:
+                if raised is not None:
+                    problems.append(t + f"{{C11}} a valid header-less table was refused: {str(raised)[:120]}")
+                elif not np.array_equal(got, vals):
+                    problems.append(t + "{C11,C04} the imported array is not the file's content under its labels")
+            else:
+                if raised is None:
+                    problems.append(t + "{C12} a duplicated label combination was accepted")
+                elif call == "set_values_from_df" and not np.array_equal(target.values, np.full(shape, -5.0)):
+                    problems.append(t + "{C12,C13} a refused import left the array changed")
+    if dup_line is None:
+        # (2) no rows at all, default flags
+        header = [d.name for d in dims] + ["value"]
+        for call in ("from_df", "set_values_from_df", "csv_reader"):
+            target = FlodymArray(dims=dims, values=np.full(shape, -5.0))
+            tmp = None
+            try:
+                empty = pd.DataFrame({h: [] for h in header})
+                if call == "from_df":
+                    FlodymArray.from_df(dims=dims, df=empty)
+                elif call == "set_values_from_df":
+                    target.set_values_from_df(empty)
+                else:
+                    tmp = tempfile.mkdtemp(prefix="flodym-verif-empty-")
+                    path = os.path.join(tmp, "p.csv")
+                    with open(path, "w") as fh:
+                        fh.write(",".join(header) + "\n")
+                    flodym.CSVParameterReader(parameter_files={"p": path}).read_parameter_values("p", dims)
+                problems.append(f"[table without any row, dims {letters}] {call} with default flags: {{C12}} every label combination is missing but the "
+                                f"import was accepted")
+            except Exception:
+                if not np.array_equal(target.values, np.full(shape, -5.0)):
+                    problems.append(f"[table without any row, dims {letters}] {call}: {{C12,C13}} a refused import left the array changed")
+            finally:
+                if tmp:
+                    shutil.rmtree(tmp, ignore_errors=True)
+    return problems[:4]
